@@ -99,6 +99,9 @@ func (t *tree) doRemove(
 		// key would be gone below a node that was never marked dirty. The children are
 		// dereferenced again below, which does not need to fetch anything unless they
 		// were evicted in between.
+		if _, err = t.cache.derefNodePtr(ctx, n.LeafNode, t.newFetcherSyncGet(key, true)); err != nil {
+			return nil, false, nil, err
+		}
 		if _, err = t.cache.derefNodePtr(ctx, n.Left, t.newFetcherSyncGet(key, true)); err != nil {
 			return nil, false, nil, err
 		}
@@ -114,10 +117,12 @@ func (t *tree) doRemove(
 		*child = newChild
 
 		// Fetch and check the remaining children.
-		var remainingLeaf node.Node
-		if n.LeafNode != nil {
-			// NOTE: The leaf node is always included with the internal node.
-			remainingLeaf = n.LeafNode.Node
+		// NOTE: The leaf node is usually included with the internal node, but a remote peer may
+		//       also have sent it as a hash only, in which case it needs to be fetched. A leaf
+		//       node that exists but is not available must never be taken for a missing one.
+		remainingLeaf, err := t.cache.derefNodePtr(ctx, n.LeafNode, t.newFetcherSyncGet(key, true))
+		if err != nil {
+			return nil, false, nil, err
 		}
 		remainingLeft, err := t.cache.derefNodePtr(ctx, n.Left, t.newFetcherSyncGet(key, true))
 		if err != nil {
